@@ -521,6 +521,17 @@ func init() {
 		panic(targetPanic{v: Iface{T: types.Typ[types.String], V: "os.Exit"}, msg: "os.Exit called", pos: in.posStr(in.curPos)})
 	}
 	intrinsics["os.Getenv"] = func(in *Interp, _ *frame, fn *ssa.Function, a []Value) Value { return "" }
+	// context.WithValue without its reflection-based comparability check
+	intrinsics["context.WithValue"] = func(in *Interp, _ *frame, fn *ssa.Function, a []Value) Value {
+		cp := in.prog.ImportedPackage("context")
+		if cp == nil || cp.Type("valueCtx") == nil {
+			in.unsupported("context.valueCtx not found")
+		}
+		vt := cp.Type("valueCtx").Object().Type()
+		cell := new(Value)
+		*cell = Struct{a[0], a[1], a[2]}
+		return Iface{T: types.NewPointer(vt), V: cell}
+	}
 	intrinsics["github.com/pkg/errors.callers"] = func(in *Interp, _ *frame, fn *ssa.Function, a []Value) Value {
 		return (*Value)(nil) // no stack trace is recorded under the engine
 	}
